@@ -69,7 +69,14 @@ def child_main():
            'def f(a, b=1):\n'
            '    pass\n'
            'class Other:\n'
-           '    pass\n')
+           '    pass\n'
+           'class D(C):\n'
+           '    x = 2\n'
+           '    def meth(self, a):\n'
+           '        pass\n'
+           '    @property\n'
+           '    def prop(self):\n'
+           '        pass\n')
 
     class StubParsed(ParsedDocstring):
         """An opaque parsed docstring whose behaviour is given by spec (see harness/c08.py: pdoc specs)."""
@@ -345,6 +352,11 @@ def child_main():
         'method': ('class K:\n    def T(self, a):\n        %(doc)s\nclass Other:\n    """other doc"""\n', 'm.K.T'),
         'attribute': ('class K:\n    T = 1\n    %(doc)s\nclass Other:\n    """other doc"""\n', 'm.K.T'),
         'property': ('class K:\n    @property\n    def T(self):\n        %(doc)s\nclass Other:\n    """other doc"""\n', 'm.K.T'),
+        # the docstring is displayed on an object that INHERITS it
+        'inherited': ('class K:\n    def T(self, a):\n        %(doc)s\nclass D(K):\n    def T(self, a):\n        pass\n'
+                      'class Other:\n    """other doc"""\n', 'm.D.T'),
+        'inherited_attr': ('class K:\n    T = 1\n    %(doc)s\nclass D(K):\n    T = 2\n'
+                           'class Other:\n    """other doc"""\n', 'm.D.T'),
     }
     CLEAN_SRC = 'class Other:\n    """other doc"""\n'
 
@@ -428,7 +440,11 @@ def child_main():
             with contextlib.redirect_stdout(io.StringIO()):
                 system = build(src, fmt, pt)
                 ob = system.allobjects[qn]
-                out['docstring'] = ob.docstring
+                gdoc, gsrc = model.get_docstring(ob)
+                src_ob = gsrc if gsrc is not None else ob
+                src_qn = src_ob.fullName()
+                out['src_qn'] = src_qn
+                out['docstring'] = ob.docstring if src_ob is ob else src_ob.docstring
                 res = {}
                 for step in order:
                     if step == 's':
@@ -466,14 +482,15 @@ def child_main():
                 out['body_kind'] = cd['body'][0]
                 out['pre_text'] = cd['body'][1] if cd['body'][0] == 'pre' else None
                 out['broken_fields'] = len([x for x in cd['fields'] if x == ['broken']])
-                mine = [e for e in events if e[0] == text_of_target(ob, case)]
+                mine = [e for e in events if e[0] == text_of_target(src_ob, case)]
                 out['parser_raised'] = next((e[1] for e in mine if e[1]), None)
                 out['recovered_errs'] = max([e[2] for e in mine if not e[1]] or [0])
-                out['fallback_called'] = qn in fb_calls
+                out['fallback_called'] = bool(fb_calls)
+                out['fallback_ctx'] = sorted(set(fb_calls))
                 out['to_node_failed'] = node_fail[0] if node_fail else None
-                out['in_parse_errors'] = qn in system.parse_errors['docstring']
+                out['in_parse_errors'] = src_qn in system.parse_errors['docstring']
                 out['parse_errors'] = sorted(n for n in system.parse_errors['docstring'])
-                out['reports_obj'] = len([r for r in reports if r[0] == qn and r[2].startswith('bad docstring')])
+                out['reports_obj'] = len([r for r in reports if r[0] == src_qn and r[2].startswith('bad docstring')])
                 out['reports'] = reports[:6]
                 pd = ob.parsed_docstring
                 out['parsed_kind'] = type(pd).__name__ if pd is not None else None
